@@ -516,7 +516,7 @@ func genC15(rt *rapid.T, st *Stats) *ConcCase {
 		n, ies, _ := genGraph(rt, GraphSpec{MaxN: maxN, MaxM: maxM, Families: allFam, Union: true, SelfLoops: true, Parallel: true})
 		c := &Case{Edges: toEdges(ies, nid)}
 		genOptions(rt, c, NodeIDs(c.Edges), OptSpec{CBs: detCB, Lays: allLay, Poss: posFor(n, len(ies), allPos), BKForced: true, Rts: allRt,
-			Thorough: true, Virt: true, Sizes: 0, NSZero: true, LSZero: true, DefaultsOK: true})
+			Thorough: true, ThoroughLow: true, Virt: true, Sizes: 0, NSZero: true, LSZero: true, DefaultsOK: true})
 		avoidK3(rt, c, st, false, []int{RtPolyline, RtStraight, RtOrtho, RtNoop})
 		cc.Jobs = append(cc.Jobs, c)
 	}
